@@ -162,6 +162,8 @@ inline void disarm_fail() { vf_fail_at = 0; vf_fail_sticky = 0; }
 // rotation counter restarts with every case (g_buf_seq, reset by the drivers), so a case stays a pure function
 // of its bytes.
 extern std::atomic<unsigned> g_buf_seq;
+extern int g_errno_poison;   // per-case errno value (a function of the case bytes) left behind "by an earlier, unrelated call"
+extern int g_errno_repoison; // set by the stateless-utility harnesses: Ctx::op() re-installs the poison before every operation
 extern int g_via_members;     // this case calls the containers through their member pointers (common/via_members.hpp)
 struct Buf {
     uint8_t *p = nullptr; size_t n = 0; uint8_t *base = nullptr;
